@@ -158,6 +158,9 @@ func runC05(c *core.Ctx) {
 		if !c.Mine(idx) {
 			continue
 		}
+		if c.Enough() {
+			break
+		}
 		id := fmt.Sprintf("t%d", idx)
 		if !c.CaseQuiet(id) {
 			continue
@@ -355,6 +358,14 @@ func c05Trial(c *core.Ctx, id string, idx int) {
 			map[string]interface{}{"marks": rig.S.LogString(80), "ops": tailOpString(ops)})
 	}
 	if !quiet {
+		if !rig.T.IsClosed() && mon.ParkedIn("(*channel).writeOnce", "sleep") > 0 {
+			// the background sender's failure path is waiting inside Close for the sender (itself) to finish:
+			// a definite stuck state - the transport will never be closed, inactive never delivered
+			viol("write-side-failure-never-closes", "after a write-side transport failure the failed sender is parked inside Close waiting for the sender flag it holds itself: the transport is never closed, inactive is never delivered, the context is never cancelled")
+			rig.T.Close()
+			rig.Dispose()
+			return
+		}
 		if rig.T.IsClosed() {
 			viol("read-loop-did-not-terminate", "the transport is closed (reads fail) but an executor action of the channel is still running after 10 s")
 		} else {
